@@ -356,7 +356,7 @@ class NodeExpandedDiGraph(nx.DiGraph):
         for constraint in subpath_constraints:
             expanded_constraint = []
             for i, edge in enumerate(constraint):
-                if edge not in self.original_G.edges:
+                if not (isinstance(edge, tuple) and len(edge) == 2) or edge not in self.original_G.edges:
                     utils.logger.error(f"{__name__}: Edge {edge} not in the original graph.")
                     raise ValueError(f"Edge {edge} not in the original graph.")
                 # For every edge (u,v) in the subpath constraint, we add the expanded node u (as (u.0, u.1)) and the edge (u.1, v.0)
